@@ -51,6 +51,14 @@ M=[
 ("C14_filterints_collects_all","list_impl.go","\tresult := NewList()\n\tfor _, item := range ego.val {\n\t\tval, ok := item.getVal().(int)\n\t\tif ok && function(val) {\n\t\t\tresult.Add(val)\n\t\t}\n\t}\n\treturn result","\tvar kept []any\n\tfor _, item := range ego.val {\n\t\tval, ok := item.getVal().(int)\n\t\tif ok {\n\t\t\tfunction(val)\n\t\t\tkept = append(kept, val)\n\t\t}\n\t}\n\treturn NewList(kept...)"),
 ("C05_delete_forever_guard_le0","list_impl.go","\tfor i := len(indexes) - 1; i >= 0; i-- {\n\t\tindex := indexes[i]","\ti := len(indexes) - 1\n\tfor {\n\t\tif i <= 0 {\n\t\t\tbreak\n\t\t}\n\t\tindex := indexes[i]\n\t\ti--"),
 ("C02_list_parts_first_repeated","list_impl.go","\tvar result strings.Builder\n\tresult.WriteRune('[')\n\tfor i, value := range ego.val {\n\t\tresult.WriteString(value.serialize())\n\t\tif i+1 < len(ego.val) {\n\t\t\tresult.WriteRune(',')\n\t\t}\n\t}","\tparts := make([]string, len(ego.val))\n\tfor i, value := range ego.val {\n\t\tparts[i] = value.serialize()\n\t}\n\tvar result strings.Builder\n\tresult.WriteRune('[')\n\tfor i := 0; i < len(parts); i++ {\n\t\tif i > 0 {\n\t\t\tresult.WriteRune(',')\n\t\t}\n\t\tresult.WriteString(parts[0])\n\t}"),
+("C07_object_snapshot_skips_first","object_impl.go","\tfor k := range ego.val {\n\t\tif !ego.val[k].isEqual(obj.val[k]) {\n\t\t\treturn false\n\t\t}\n\t}\n\treturn true","\tkeys := make([]string, 0, len(ego.val))\n\tfor k := range ego.val {\n\t\tkeys = append(keys, k)\n\t}\n\tfor i, k := range keys {\n\t\tif i > 0 && !ego.val[k].isEqual(obj.val[k]) {\n\t\t\treturn false\n\t\t}\n\t}\n\treturn true"),
+("C07_list_cursor_wrong_verdict","list_impl.go","\tfor i := range ego.val {\n\t\tif !ego.val[i].isEqual(list.val[i]) {\n\t\t\treturn false\n\t\t}\n\t}\n\treturn true","\tcursor := 0\n\tfor cursor < len(ego.val) && ego.val[cursor].isEqual(list.val[cursor]) {\n\t\tcursor++\n\t}\n\treturn cursor <= len(ego.val)"),
+("C14_reducestrings_countdown_skips_first","list_impl.go","\tresult := initial\n\tfor _, item := range ego.val {\n\t\tval, ok := item.getVal().(string)\n\t\tif ok {\n\t\t\tresult = function(result, val)\n\t\t}\n\t}\n\treturn result","\tresult := initial\n\tfor left := len(ego.val) - 1; left > 0; left-- {\n\t\tval, ok := ego.val[len(ego.val)-left].getVal().(string)\n\t\tif ok {\n\t\t\tresult = function(result, val)\n\t\t}\n\t}\n\treturn result"),
+("C14_mapstrings_push_element","list_impl.go","\t\tval, ok := item.getVal().(string)\n\t\tif ok {\n\t\t\tresult.Add(function(val))\n\t\t}\n\t}\n\treturn result","\t\tval, ok := item.getVal().(string)\n\t\tif ok {\n\t\t\tfunction(val)\n\t\t\tout := result.(*list)\n\t\t\tout.val = append(out.val, parseVal(val))\n\t\t}\n\t}\n\treturn result"),
+("C16_format_fastpath_empty_text","list_impl.go","\tbuffer := new(bytes.Buffer)\n\tjson.Indent(buffer, []byte(ego.String()), \"\", strings.Repeat(\" \", indent))\n\treturn buffer.String()","\tcompact := ego.String()\n\tif compact == \"[]\" {\n\t\treturn \"\"\n\t}\n\tbuffer := new(bytes.Buffer)\n\tjson.Indent(buffer, []byte(compact), \"\", strings.Repeat(\" \", indent))\n\treturn buffer.String()"),
+("C17_sort_reverse_adapter","list_impl.go","\t\tslice := ego.IntSlice()\n\t\tsort.Ints(slice)","\t\tslice := ego.IntSlice()\n\t\tsort.Sort(sort.Reverse(sort.IntSlice(slice)))"),
+("C06_unset_window_by_two","object_impl.go","\tfor _, key := range keys {\n\t\tdelete(ego.val, key)\n\t}\n\treturn ego.Ego()","\tfor len(keys) > 1 {\n\t\tdelete(ego.val, keys[0])\n\t\tkeys = keys[2:]\n\t}\n\treturn ego.Ego()"),
+("C01_cascade_table_float_first","parser.go","\tinteger, err := strconv.ParseInt(field, 0, bits.UintSize)\n\tif err == nil {\n\t\treturn int(integer), nil\n\t}\n\tfloat, err := strconv.ParseFloat(field, 64)\n\tif err == nil {\n\t\treturn float, nil\n\t}","\tfirst := [...]func(string) (any, error){\n\t\tfunc(s string) (any, error) { return strconv.ParseFloat(s, 64) },\n\t\tfunc(s string) (any, error) {\n\t\t\tinteger, err := strconv.ParseInt(s, 0, bits.UintSize)\n\t\t\treturn int(integer), err\n\t\t},\n\t}\n\tfor _, try := range first {\n\t\tif value, err := try(field); err == nil {\n\t\t\treturn value, nil\n\t\t}\n\t}"),
 ("C01_cascade_float_first","parser.go","\tinteger, err := strconv.ParseInt(field, 0, bits.UintSize)\n\tif err == nil {\n\t\treturn int(integer), nil\n\t}\n\tfloat, err := strconv.ParseFloat(field, 64)\n\tif err == nil {\n\t\treturn float, nil\n\t}","\tfloat, err := strconv.ParseFloat(field, 64)\n\tif err == nil {\n\t\treturn float, nil\n\t}\n\tinteger, err := strconv.ParseInt(field, 0, bits.UintSize)\n\tif err == nil {\n\t\treturn int(integer), nil\n\t}"),
 ]
 
